@@ -172,6 +172,65 @@ def error_shapes(root):
     return n, out
 
 
+# directory symlinks: (directory holding the link, link name, physical target directory); chains leave the linked directory with `../`
+LINKS = [("c", "ln_ab", "a/b"), ("", "ln_ab", "a/b"), ("c", "ln_a", "a"), ("a", "ln_c", "c")]
+
+
+def build_links(root: str):
+    """Chains that start in a directory reached through a symlink and step out of it with `../`.  The operating system
+    resolves `link/..` physically (the parent of the link's target), so the planted value is the physical one; a decoy
+    with the same file name sits where a textual collapse of `link/..` would look."""
+    for tgt in sorted({t for _, _, t in LINKS}):
+        tag = tgt.replace("/", "")
+        parent = os.path.dirname(tgt)
+        with open(os.path.join(root, tgt, f"s0_{tag}.nix"), "w") as f:
+            f.write("{ k = import ../s1_%s.nix; }\n" % tag)
+        with open(os.path.join(root, tgt, f"t0_{tag}.nix"), "w") as f:
+            f.write("{ k = import ../leaf.nix; }\n")
+        with open(os.path.join(root, parent, f"s1_{tag}.nix"), "w") as f:
+            f.write("{ k = import ./leaf.nix; }\n")
+    for holder, name, tgt in LINKS:
+        tag = tgt.replace("/", "")
+        link = os.path.join(root, holder, name)
+        if not os.path.islink(link):
+            os.symlink(os.path.relpath(os.path.join(root, tgt), os.path.join(root, holder)), link)
+        decoy = os.path.join(root, holder, f"s1_{tag}.nix")
+        if not os.path.exists(decoy):
+            with open(decoy, "w") as f:
+                f.write("{ k = import ./leaf.nix; }\n")
+
+
+def link_chains(root, mirror, cwds, offset=0):
+    from nix_manipulator import parse_file
+
+    n = 0
+    out = []
+    for holder, name, tgt in LINKS:
+        tag = tgt.replace("/", "")
+        want = VALUES[os.path.dirname(tgt)] + offset
+        for fname, length in ((f"s0_{tag}.nix", 2), (f"t0_{tag}.nix", 1)):
+            full = os.path.join(root, holder, name, fname)
+            for cwd in cwds:
+                for ekind, entry in (("abs", full), ("rel", os.path.relpath(full, cwd))):
+                    for chdir_after in (False, True):
+                        os.chdir(cwd)
+                        n += 1
+                        try:
+                            cur = parse_file(entry)
+                            if chdir_after:
+                                os.chdir(mirror)
+                            for _ in range(length):
+                                cur = cur["k"]
+                            got = cur["v"]
+                            val = getattr(got, "value", got)
+                        except Exception as e:
+                            val = f"{type(e).__name__}: {str(e)[:80]}"
+                        if val != want:
+                            cls = "wrong-file" if isinstance(val, int) else "lookup-raises"
+                            out.append((cls, f"symlink|{'two-hop' if length == 2 else 'one-hop'}|entry={ekind}|chdir_after_parse={chdir_after}", f"entry <R>/{os.path.join(holder, name, fname)} ({name} -> {tgt}) whose import leaves the linked directory with ../ ({length} hop(s)), entry={ekind} cwd={cwd} chdir_after_parse={chdir_after}: got {val!r}, planted {want} (the file physically next to the one that was read)"))
+    return n, out
+
+
 def run(prop: str, tier: str) -> core.Report:
     base = tempfile.mkdtemp(prefix="nixmc-c17-")
     home = os.getcwd()
@@ -180,6 +239,8 @@ def run(prop: str, tier: str) -> core.Report:
         mirror = os.path.join(base, "U")
         chains = build_tree(root, 0)
         build_tree(mirror, 900)  # decoys: same relative structure, other values
+        build_links(root)
+        build_links(mirror)
         cwds = [root, os.path.join(root, "a"), os.path.join(root, "c"), mirror, os.path.join(mirror, "a"), "/"]
         items = sorted(chains.items())
         if tier == "quick":
@@ -199,7 +260,14 @@ def run(prop: str, tier: str) -> core.Report:
                     fl[sig] = core.Failure(prop="C17", sig=sig, cls=cls, case={"kind": "c17", "sig": sig}, detail=detail, group=cls, raw_count=0)
                 fl[sig].raw_count += 1
         en, efails = error_shapes(root)
+        ln, lfails = link_chains(root, mirror, cwds)
+        en += ln
         os.chdir(home)
+        for cls, sig0, detail in lfails:
+            sig = f"{cls}|{sig0}"
+            if sig not in fl:
+                fl[sig] = core.Failure(prop="C17", sig=sig, cls=cls, case={"kind": "c17", "sig": sig}, detail=detail, group=cls, raw_count=0)
+            fl[sig].raw_count += 1
         for cls, fname, detail in efails:
             fl[f"{cls}|{fname}"] = core.Failure(prop="C17", sig=f"{cls}|{fname}", cls=cls, case={"kind": "c17", "sig": fname}, detail=detail, group=cls)
         # keep only minimal signatures: drop a failing multi-hop signature if every hop spelling already fails alone
@@ -215,7 +283,7 @@ def run(prop: str, tier: str) -> core.Report:
         cov = {
             "evaluations": n + en,
             "distinct_nontrivial": n,
-            "rule": f"{len(items)} import chains (1-3 hops over directories {DIRS}, hop spellings ./ ../ bare a/b detour absolute) x {len(cwds)} working directories x 4-6 entry-path spellings (absolute, relative, ./relative, detour, directory part ending in `..`) x chdir-between-parse-and-lookup, plus every relative chain entered through the same relative spelling from the tree and from its mirror in one process; decoy leaf.nix in every directory and a mirror tree with other values under the unrelated working directory; + error shapes",
+            "rule": f"{len(items)} import chains (1-3 hops over directories {DIRS}, hop spellings ./ ../ bare a/b detour absolute) x {len(cwds)} working directories x 4-6 entry-path spellings (absolute, relative, ./relative, detour, directory part ending in `..`) x chdir-between-parse-and-lookup, plus every relative chain entered through the same relative spelling from the tree and from its mirror in one process, plus {len(LINKS)} directory symlinks x chains that leave the linked directory with ../ (1 and 2 hops, decoy where a textual collapse of link/.. would look) x working directories x absolute/relative entry x chdir flag; decoy leaf.nix in every directory and a mirror tree with other values under the unrelated working directory; + error shapes",
             "samples": [{"chain": c, "dirs": v[5], "hop_spellings": v[4], "planted": v[3]} for c, v in core.pick_samples(items, 4)],
             "exhaustive": True,
             "chains": len(items),
